@@ -395,6 +395,17 @@ def actives(sets, x):
     return out, sharp, pre
 
 
+# (tag, x, parameters): see the strict probes in run()
+SPAN_PROBES = [
+    (8, 0.9e308, [-1e308, 1e308, 1.5e308, 0.0]), (8, -0.9e308, [-1.5e308, -1e308, 1e308, 0.0]),
+    (7, 0.9e308, [-1e308, 1e308, 1.2e308, 1.5e308]), (7, -0.9e308, [-1.5e308, -1.2e308, -1e308, 1e308]),
+    (9, 0.9e308, [-1e308, 1e308, 0.0, 0.0]), (10, 0.9e308, [-1e308, 1e308, 0.0, 0.0]),
+    (11, 1.7e308, [1.6e308, 1.75e308, 0.0, 0.0]), (11, 0.5e308, [-1e308, 1.5e308, 0.0, 0.0]),
+    (12, 1.7e308, [1.6e308, 1.75e308, 0.0, 0.0]), (12, 0.5e308, [-1e308, 1.5e308, 0.0, 0.0]),
+    (13, 1.7e308, [1.6e308, 1.75e308, 1.76e308, 1.77e308]), (13, -1.7e308, [-1.79e308, -1.78e308, -1.75e308, -1.6e308]),
+]
+
+
 def oracle(d, out):
     """The property on the C output `out` (list of floats; real-libm build).  Returns None or a description."""
     k = d["k"]
@@ -987,6 +998,23 @@ def run(ctx):
         if why:
             nviol += 1
             report(d, why, out_lib[i][:40])
+    # ---- strict probes (OPEN findings, KNOWN_FINDINGS.txt): finite arguments, well-ordered finite parameters whose span b - a
+    # (tri, trap, lins, linz) or sum a + b (s, z, pi) exceeds the largest binary64 number.  Found while relating the float run
+    # to the rounded-real run (C13/MfOverflow.v, theorem C13_f64_span_overflow_refuted); each family has its own key, and the
+    # generated cases above never come near this range, so any other violation of a family is still reported under its own key.
+    nprobe = 0
+    for t, x, pp in SPAN_PROBES:
+        d = {"k": "mf", "tag": t, "x": float(x), "p": [float(v) for v in pp]}
+        o = fcorr.run_c(c_lib, [c_line(d)])[0]
+        why = oracle(d, [fcorr.fval(b) for b in o])
+        nprobe += 1
+        key = "a_mf_%s/span-overflow" % NAME[t]
+        if why and key not in reported:
+            reported.add(key)
+            ctx.report(key, why, {"case": enc(d), "harness_line": c_line(d), "c_output": o[:4],
+                                  "how": "echo '<harness_line>' | build/C13/drv_libm"})
+    ctx.count(evaluations=nprobe)
+    ctx.cov["span_overflow_probes"] = nprobe
     # ---- tie broken and nothing found yet: search harder with the oracle alone (C only, cheap)
     if nd and not reported:
         ctx.log("tie broken on %s; searching for a failing input with the oracle" % bad_kinds)
